@@ -193,3 +193,251 @@ Proof.
       { unfold sval. pose proof (Zpow2_pos (e' - emin) ltac:(lia)). nia. }
       lia.
 Qed.
+
+(* ================================================================== printing is within half a unit *)
+
+Definition pow10 (p : nat) : N := (10 ^ N.of_nat p)%N.
+
+Lemma pow10_pos : forall p, (0 < pow10 p)%N.
+Proof. intros p. unfold pow10. apply N.neq_0_lt_0. apply N.pow_nonzero. discriminate. Qed.
+
+(* x = mx * 2^ex, t = scaled_round p mx ex / 10^p :  2 * |x - t| <= 10^-p  (scaled by 10^p * 2^1074) *)
+Lemma print_close : forall (pd : nat) (mx : N) (ex : Z), -1074 <= ex ->
+  2 * Z.abs (sval (-1074) (pow10 pd) mx ex - starget (-1074) (scaled_round pd mx ex)) <= 2 ^ 1074.
+Proof.
+  intros pd mx ex Hex. unfold sval, starget, scaled_round. fold (pow10 pd).
+  replace (- -1074) with 1074 by lia. replace (ex - -1074) with (ex + 1074) by lia.
+  pose proof (pow10_pos pd) as H10.
+  destruct (Z.leb_spec 0 ex) as [H0|H0].
+  - rewrite !N2Z.inj_mul, pow2_Z by assumption. rewrite Zpow2_split by lia.
+    match goal with |- 2 * Z.abs ?a <= _ => replace a with 0 by ring end.
+    simpl Z.abs. pose proof (Zpow2_pos 1074 ltac:(lia)). lia.
+  - set (d := pow2 (- ex)). set (n0 := (mx * pow10 pd)%N).
+    pose proof (rne_div_half n0 d (pow2_pos _)) as Hh.
+    assert (Hd : Z.of_N d = 2 ^ (- ex)) by (apply pow2_Z; lia). rewrite Hd in Hh.
+    assert (Hs : 2 ^ 1074 = 2 ^ (- ex) * 2 ^ (ex + 1074)) by (rewrite <- Zpow2_split by lia; f_equal; lia).
+    pose proof (Zpow2_pos (ex + 1074) ltac:(lia)) as Hp.
+    set (n := rne_div n0 d) in *.
+    assert (Hn0 : Z.of_N n0 = Z.of_N mx * Z.of_N (pow10 pd)) by (unfold n0; lia).
+    match goal with |- 2 * Z.abs ?a <= _ =>
+      replace a with ((Z.of_N n0 - Z.of_N n * 2 ^ (- ex)) * 2 ^ (ex + 1074)) by (rewrite Hs, Hn0; ring) end.
+    rewrite Z.abs_mul, (Z.abs_eq (2 ^ (ex + 1074))) by lia.
+    rewrite Hs. rewrite <- Z.abs_opp in Hh.
+    replace (- (Z.of_N n * 2 ^ (- ex) - Z.of_N n0)) with (Z.of_N n0 - Z.of_N n * 2 ^ (- ex)) in Hh by ring.
+    nia.
+Qed.
+
+(* the double read back from the text of x = mx * 2^ex differs from x by at most 10^-p:
+   |m * 2^e - mx * 2^ex| * (10^p * 2^1074) <= 2^1074 *)
+Theorem float_value_roundtrip : forall (pd : nat) (mx : N) (ex : Z),
+  Z.of_N mx < 2 ^ 53 -> -1074 <= ex ->
+  let r := round_bin 53 (-1074) (scaled_round pd mx ex) (pow10 pd) in
+  -1074 <= snd r /\
+  Z.abs (sval (-1074) (pow10 pd) (fst r) (snd r) - sval (-1074) (pow10 pd) mx ex) <= 2 ^ 1074.
+Proof.
+  intros pd mx ex Hmx Hex r.
+  destruct (round_bin_nearest 53 (-1074) (scaled_round pd mx ex) (pow10 pd) ltac:(lia) ltac:(lia) (pow10_pos pd)
+              mx ex Hmx Hex) as [He Hn].
+  fold r in He, Hn. split; [exact He|].
+  pose proof (print_close pd mx ex Hex) as Hc.
+  set (T := starget (-1074) (scaled_round pd mx ex)) in *.
+  set (V := sval (-1074) (pow10 pd) (fst r) (snd r)) in *.
+  set (X := sval (-1074) (pow10 pd) mx ex) in *.
+  lia.
+Qed.
+
+(* ================================================================== the text of "%.pf" and its scan *)
+Local Open Scope N_scope.
+
+Lemma digits_fuel_length : forall f n k, n < 10 ^ N.of_nat k -> (1 <= k)%nat ->
+  (length (digits_fuel 10 false f n) <= k)%nat.
+Proof.
+  induction f as [|f IH]; intros n k Hn Hk; [simpl; lia|].
+  cbn [digits_fuel]. destruct (N.ltb_spec n 10); [simpl; lia|].
+  rewrite app_length. simpl length.
+  destruct k as [|[|k]]; [lia | simpl in Hn; lia |].
+  assert (n / 10 < 10 ^ N.of_nat (S k)).
+  { apply N.div_lt_upper_bound; [lia|]. rewrite <- N.pow_succ_r', <- Nat2N.inj_succ. exact Hn. }
+  specialize (IH (n / 10) (S k) H0 ltac:(lia)). lia.
+Qed.
+
+Lemma all_digits_zeros : forall j, all_digits 10 (repeat c_zero j).
+Proof. induction j; simpl; constructor; [discriminate|assumption]. Qed.
+
+Lemma value_of_zeros : forall j acc, value_of 10 (repeat c_zero j) acc = acc * 10 ^ N.of_nat j.
+Proof.
+  induction j as [|j IH]; intros acc; [simpl; lia|].
+  cbn [repeat value_of]. replace (digit_in 10 c_zero) with (Some 0) by reflexivity.
+  rewrite IH, Nat2N.inj_succ, N.pow_succ_r'. lia.
+Qed.
+
+Lemma pad_digits_spec : forall p x, x < 10 ^ N.of_nat p -> (1 <= p)%nat ->
+  all_digits 10 (pad_digits p (print_nat 10 false x)) /\
+  length (pad_digits p (print_nat 10 false x)) = p /\
+  forall acc, value_of 10 (pad_digits p (print_nat 10 false x)) acc = acc * 10 ^ N.of_nat p + x.
+Proof.
+  intros p x Hx Hp. unfold pad_digits.
+  pose proof (digits_fuel_length (S (N.to_nat (N.log2 x))) x p Hx Hp) as Hl. fold (print_nat 10 false x) in Hl.
+  pose proof (print_nat_all 10 false ltac:(lia) ltac:(lia) x) as Ha.
+  assert (Hall : all_digits 10 (repeat c_zero (p - length (print_nat 10 false x)) ++ print_nat 10 false x))
+    by (apply all_digits_app; [apply all_digits_zeros | assumption]).
+  assert (Hlen : length (repeat c_zero (p - length (print_nat 10 false x)) ++ print_nat 10 false x) = p)
+    by (rewrite app_length, repeat_length; lia).
+  split; [exact Hall|]. split; [exact Hlen|].
+  intros acc. rewrite value_of_acc by exact Hall. rewrite Hlen. f_equal.
+  rewrite value_of_app by apply all_digits_zeros. rewrite value_of_zeros.
+  rewrite N.mul_0_l. apply print_nat_value; lia.
+Qed.
+
+(* what may follow the text of a Float so that the token ends there *)
+Definition stops_float (rest : text) : Prop :=
+  match rest with
+  | [] => True
+  | c :: _ => digit_in 10 c = None /\ c <> c_e /\ c <> c_E /\ c <> c_dot
+  end.
+
+Lemma stops_float_stops : forall rest, stops_float rest -> stops 10 rest.
+Proof. intros [|c r] H; [exact I|]. simpl in *. tauto. Qed.
+
+(* a conversion specification without flags and width: %f, %lf, %.pf *)
+Definition plain_fspec (sp : nspec) : Prop :=
+  n_plus sp = false /\ n_space sp = false /\ n_zero sp = false /\ n_alt sp = false /\ n_width sp = O.
+
+Lemma scan_exponent_none : forall rest n4, stops_float rest -> scan_exponent rest n4 = None.
+Proof.
+  intros [|c r] n4 H; [reflexivity|]. simpl in H. destruct H as (_ & He & HE & _).
+  apply N.eqb_neq in He, HE. unfold scan_exponent. now rewrite He, HE.
+Qed.
+
+(* the fractional part written by %.pf *)
+Definition frac_text (p : nat) (alt : bool) (n : N) : text :=
+  match p with
+  | O => if alt then [c_dot] else []
+  | S _ => c_dot :: pad_digits p (print_nat 10 false (n mod 10 ^ N.of_nat p))
+  end.
+
+Lemma scan_mantissa_print : forall p n rest n2, stops_float rest ->
+  scan_mantissa (print_nat 10 false (n / 10 ^ N.of_nat p) ++ frac_text p false n ++ rest) n2
+  = (n, length (print_nat 10 false (n / 10 ^ N.of_nat p)), p, rest,
+     (n2 + length (print_nat 10 false (n / 10 ^ N.of_nat p)) + length (frac_text p false n))%nat).
+Proof.
+  intros p n rest n2 Hr. set (P := 10 ^ N.of_nat p).
+  assert (HP : 0 < P) by (unfold P; apply N.neq_0_lt_0, N.pow_nonzero; discriminate).
+  unfold scan_mantissa.
+  rewrite scan_digits_app by (apply print_nat_all; lia).
+  rewrite print_nat_value by lia.
+  destruct p as [|p'].
+  - cbn [frac_text app]. rewrite scan_digits_stop by (apply stops_float_stops, Hr).
+    assert (Hn : n / P = n) by (unfold P; simpl; apply N.div_1_r).
+    destruct rest as [|c r].
+    + rewrite Hn. f_equal. simpl. lia.
+    + simpl in Hr. destruct Hr as (_ & _ & _ & Hdot). apply N.eqb_neq in Hdot. rewrite Hdot.
+      rewrite Hn. f_equal. simpl. lia.
+  - cbn [frac_text]. fold P. rewrite scan_digits_stop by (cbn [app]; reflexivity).
+    cbn [app]. replace (c_dot =? c_dot) with true by reflexivity.
+    destruct (pad_digits_spec (S p') (n mod P)) as (Hpa & Hpl & Hpv);
+      [apply N.mod_lt; lia | lia |].
+    rewrite scan_digits_app by exact Hpa.
+    rewrite scan_digits_stop by (apply stops_float_stops, Hr).
+    rewrite Hpv. fold P. rewrite Hpl.
+    replace (n / P * P + n mod P) with n by (rewrite (N.div_mod' n P) at 1; lia).
+    f_equal. simpl. rewrite Hpl. lia.
+Qed.
+
+Lemma print_float_plain : forall sp s mx ex, plain_fspec sp ->
+  print_float sp s mx ex
+  = (if s then [c_minus] else []) ++
+    print_nat 10 false (scaled_round (float_prec sp) mx ex / 10 ^ N.of_nat (float_prec sp)) ++
+    frac_text (float_prec sp) false (scaled_round (float_prec sp) mx ex).
+Proof.
+  intros sp s mx ex (Hplus & Hspace & Hzero & Halt & Hw).
+  unfold print_float, frac_text. rewrite Hplus, Hspace, Hzero, Halt, Hw.
+  unfold pad. cbn [Nat.sub repeat app]. reflexivity.
+Qed.
+
+(* the text "%.pf" writes for a finite double is scanned as sign, N = scaled_round, p decimals,
+   and the scan consumes exactly that text *)
+Theorem float_text_roundtrip : forall sp s mx ex rest, plain_fspec sp -> stops_float rest ->
+  scan_float_text (print_float sp s mx ex ++ rest)
+  = Some (s, scaled_round (float_prec sp) mx ex, (- Z.of_nat (float_prec sp))%Z, length (print_float sp s mx ex)).
+Proof.
+  intros sp s mx ex rest Hsp Hr. rewrite print_float_plain by assumption.
+  rewrite <- !app_assoc.
+  set (p := float_prec sp). set (n := scaled_round p mx ex).
+  set (ip := print_nat 10 false (n / 10 ^ N.of_nat p)).
+  pose proof (print_nat_all 10 false ltac:(lia) ltac:(lia) (n / 10 ^ N.of_nat p)) as Hipd. fold ip in Hipd.
+  pose proof (print_nat_nonempty 10 false (n / 10 ^ N.of_nat p)) as Hipn. fold ip in Hipn.
+  pose proof (fun n2 => scan_mantissa_print p n rest n2 Hr) as Hman. fold ip in Hman.
+  destruct ip as [|d0 t] eqn:Eip; [congruence|].
+  assert (Hd0 : digit_in 10 d0 <> None) by now inversion Hipd.
+  destruct (digit_not_sign 10 d0 Hd0) as [Hm Hpl].
+  pose proof (digit_not_space 10 d0 Hd0) as Hsp'.
+  unfold scan_float_text. destruct s.
+  - cbn [app]. rewrite skip_ws_nonspace by reflexivity.
+    cbn [scan_sign]. replace (c_minus =? c_minus) with true by reflexivity.
+    change (d0 :: t ++ frac_text p false n ++ rest) with ((d0 :: t) ++ frac_text p false n ++ rest).
+    rewrite Hman. cbn [length Nat.add]. rewrite scan_exponent_none by assumption.
+    f_equal. f_equal. rewrite !app_length. simpl. lia.
+  - cbn [app]. rewrite skip_ws_nonspace by assumption.
+    cbn [scan_sign]. rewrite Hm, Hpl.
+    change (d0 :: t ++ frac_text p false n ++ rest) with ((d0 :: t) ++ frac_text p false n ++ rest).
+    rewrite Hman. cbn [length Nat.add]. rewrite scan_exponent_none by assumption.
+    f_equal. f_equal. rewrite !app_length. simpl. lia.
+Qed.
+
+(* ================================================================== Float values through scan_num *)
+
+Lemma decode_double_range : forall b s mx ex, decode_double b = Some (s, mx, ex) ->
+  (Z.of_N mx < 2 ^ 53)%Z /\ (-1074 <= ex <= 971)%Z.
+Proof.
+  intros b s mx ex H. unfold decode_double in H.
+  assert (Hfr : b mod p52 < p52) by (apply N.mod_lt; discriminate).
+  assert (Hex : (b / p52) mod 2048 < 2048) by (apply N.mod_lt; discriminate).
+  set (fr := b mod p52) in *. set (xf := (b / p52) mod 2048) in *.
+  clearbody fr xf.
+  change (2 ^ 53)%Z with 9007199254740992%Z. unfold p52 in *.
+  destruct (N.eqb_spec xf 2047); [discriminate|].
+  pose proof (f_equal (fun o => match o with Some (_, m, _) => m | None => 0 end) H) as Hm.
+  pose proof (f_equal (fun o => match o with Some (_, _, e) => e | None => 0%Z end) H) as He.
+  destruct (N.eqb_spec xf 0); cbv beta iota in Hm, He; subst mx ex; split; lia.
+Qed.
+
+Lemma read_float_long : forall neg mant (p : nat),
+  read_float true neg mant (- Z.of_nat p)
+  = encode_double 1024 neg (fst (round_bin 53 (-1074) mant (pow10 p))) (snd (round_bin 53 (-1074) mant (pow10 p))).
+Proof.
+  intros neg mant p. unfold read_float, pow10.
+  destruct (Z.leb_spec 0 (- Z.of_nat p)) as [H|H].
+  - assert (p = O) by lia. subst p. simpl Z.to_N. rewrite N.pow_0_r, N.mul_1_r.
+    simpl N.of_nat. rewrite N.pow_0_r.
+    destruct (round_bin 53 (-1074) mant 1) as [m e]. reflexivity.
+  - replace (Z.to_N (- - Z.of_nat p)) with (N.of_nat p) by lia.
+    destruct (round_bin 53 (-1074) mant (10 ^ N.of_nat p)) as [m e]. reflexivity.
+Qed.
+
+(* Float, partial: the text of a finite double b = (-1)^s mx 2^ex written with a plain %.pf is read
+   back by %lf, consuming exactly that text, into the double encode_double s m e where
+   |m 2^e - mx 2^ex| <= 10^-p (stated after multiplication by 10^p 2^1074).
+   Not covered here: that decode_double inverts encode_double on (m, e) (bit-level packing), which
+   the correspondence checks on every Float case. *)
+Theorem float_roundtrip_partial : forall cf sp ssp b s mx ex rest,
+  conv_is_float (n_conv sp) = true -> plain_fspec sp ->
+  conv_is_float (n_conv ssp) = true -> conv_is_int (n_conv ssp) = false -> n_long ssp = true ->
+  decode_double b = Some (s, mx, ex) -> stops_float rest ->
+  exists m e,
+    scan_num cf ssp (print_num sp (VFloat b) ++ rest)
+    = Some (VFloat (encode_double 1024 s m e), length (print_num sp (VFloat b)))
+    /\ (-1074 <= e)%Z
+    /\ (Z.abs (sval (-1074) (pow10 (float_prec sp)) m e - sval (-1074) (pow10 (float_prec sp)) mx ex) <= 2 ^ 1074)%Z.
+Proof.
+  intros cf sp ssp b s mx ex rest Hc Hplain Hsc Hsi Hl Hdec Hr.
+  destruct (decode_double_range _ _ _ _ Hdec) as [Hmx [Hex _]].
+  set (p := float_prec sp).
+  set (r := round_bin 53 (-1074) (scaled_round p mx ex) (pow10 p)).
+  exists (fst r), (snd r).
+  destruct (float_value_roundtrip p mx ex Hmx Hex) as [He Hv]. fold r in He, Hv.
+  split; [|split; assumption].
+  unfold print_num, scan_num. rewrite Hc, Hdec, Hsi, Hsc.
+  rewrite float_text_roundtrip by assumption. fold p.
+  rewrite Hl, read_float_long. reflexivity.
+Qed.
